@@ -232,6 +232,59 @@ MUTANTS = [
                         &mut layer.weights,
                         &mut weight_gradients[i],
                     );""", 1),
+    # ---- property-preserving refactors: must NOT be reported ----------------------------
+    ("keep-chunk-size-32 (C12)", "C12", "src/network.rs",
+     "const _CHUNKS: usize = 64;", "const _CHUNKS: usize = 32;", 0),
+    ("keep-chunk-size-32 (C05)", "C05", "src/network.rs",
+     "const _CHUNKS: usize = 64;", "const _CHUNKS: usize = 32;", 0),
+    ("keep-dropout-other-fixed-seed (C09)", "C09", "src/tensor.rs",
+     "let mut generator = random::Generator::create(12345);", "let mut generator = random::Generator::create(54321);", 0),
+    ("keep-dropout-other-fixed-seed (C05)", "C05", "src/tensor.rs",
+     "let mut generator = random::Generator::create(12345);", "let mut generator = random::Generator::create(54321);", 0),
+    ("keep-batches-chunked-sequentially (C04)", "C04", "src/network.rs",
+     """            .par_chunks(batch)
+            .zip(targets.par_chunks(batch))
+            .collect();""",
+     """            .chunks(batch)
+            .zip(targets.chunks(batch))
+            .collect();""", 0),
+    ("keep-adam-square-by-multiplication (C03)", "C03", "src/optimizer.rs",
+     """                velocity[i] =
+                    velocity[i] * self.beta2 + gradients[i].powf(2.0) * (1.0 - self.beta2);
+                let m = momentum[i] / (1.0 - self.beta1.powi(stepnr));
+                let v = velocity[i] / (1.0 - self.beta2.powi(stepnr));
+                weights[i] -= self.learning_rate * m / (v.sqrt() + self.epsilon);
+            }),
+            (
+                tensor::Data::Double(weights),
+                tensor::Data::Double(gradients),
+                tensor::Data::Double(momentum),
+                tensor::Data::Double(velocity),
+            ) => (0..weights.len()).for_each(|i| {
+                for j in 0..weights[i].len() {
+                    if let Some(decay) = self.decay {""",
+     """                velocity[i] =
+                    velocity[i] * self.beta2 + gradients[i] * gradients[i] * (1.0 - self.beta2);
+                let m = momentum[i] / (1.0 - self.beta1.powi(stepnr));
+                let v = velocity[i] / (1.0 - self.beta2.powi(stepnr));
+                weights[i] -= self.learning_rate * m / (v.sqrt() + self.epsilon);
+            }),
+            (
+                tensor::Data::Double(weights),
+                tensor::Data::Double(gradients),
+                tensor::Data::Double(momentum),
+                tensor::Data::Double(velocity),
+            ) => (0..weights.len()).for_each(|i| {
+                for j in 0..weights[i].len() {
+                    if let Some(decay) = self.decay {""", 0),
+    ("keep-early-stop-window-as-slice (C13)", "C13", "src/network.rs",
+     """                    let history: Vec<&f32> =
+                        val_loss.iter().rev().take(threshold as usize).collect();""",
+     """                    let history: Vec<&f32> =
+                        val_loss[val_loss.len() - threshold as usize..].iter().rev().collect();""", 0),
+    ("keep-recouple-in-reverse-copy-order (C10)", "C10", "src/feedback.rs",
+     "            for i in couple.iter() {\n                match &mut self.layers[*i] {",
+     "            for i in couple.iter().rev() {\n                match &mut self.layers[*i] {", 0),
 ]
 
 EXTRA_PRE = {
